@@ -21,8 +21,10 @@ decompresses to the block size, sizes footer accounts for the layer, end marker 
 offsets/sizes/eof offsets/hashes recomputed from the block stream, every recipient key unwraps the same archive key); \
 (refimpl->reader) archives encoded by the independent implementation with free interleaving, block lengths, brotli \
 quality 0-11 / lgwin 10-24 and 1-5 recipients, read by the library; (cipher) mla's incremental AES-GCM vs the aes-gcm \
-crate for every split of the message. Non-trivial = archive with >= 2 chunks or >= 2 blocks or >= 2 recipients; \
-cipher case with >= 2 pieces one of which is not a multiple of 16 bytes. The production flavour uses the documented \
+crate for every split of the message; (many-chunks) both directions on archives whose encrypted stream holds 255..260 and \
+260..1200 chunks (production constants: 256..258 chunks of 128 KiB) and, on the scaled constants only, 65534..65540 \
+chunks, so that the second and third byte of the big-endian chunk index take part. Non-trivial = archive with >= 2 chunks or >= 2 blocks or >= 2 recipients; \
+cipher case with >= 2 pieces one of which is not a multiple of 16 bytes; many-chunks case with > 256 chunks. The production flavour uses the documented \
 constants (128 KiB / 4 MiB); the scaled flavour repeats the archive families on small constants for breadth.";
 
 // ------------------------------------------------------------ writer -> refimpl
@@ -114,7 +116,7 @@ pub struct BackCase {
     pub seed: u16,
 }
 
-fn back_case() -> impl Strategy<Value = BackCase> {
+pub fn back_case() -> impl Strategy<Value = BackCase> {
     (
         (0u8..4, 0u8..=11, 10u8..=24, 1u8..=5, any::<u8>()),
         prop::collection::vec(prop::collection::vec(prog::fixed_size(), 0..5), 0..6),
@@ -135,9 +137,8 @@ fn back_case() -> impl Strategy<Value = BackCase> {
         })
 }
 
-fn backward(c: &BackCase, st: &mut Stats) -> Result<(), String> {
-    st.eval(1);
-    st.label(format!("back:layers={}", prog::layers_name(c.layers)));
+/// An archive encoded by the independent implementation: (bytes, model, recipient secrets, inner stream length)
+pub fn build_back(c: &BackCase) -> (Vec<u8>, BTreeMap<String, Vec<u8>>, Vec<[u8; 32]>, usize) {
     let names: Vec<String> = (0..c.files.len()).map(|i| if i == 1 { "δ/../ü 1".to_string() } else { format!("r{i}") }).collect();
     // per-file queues of record ops, merged by `order`
     let mut queues: Vec<std::collections::VecDeque<EncOp>> = Vec::new();
@@ -182,6 +183,13 @@ fn backward(c: &BackCase, st: &mut Stats) -> Result<(), String> {
         recipients: secrets.iter().map(|s| x25519_dalek::x25519(*s, x25519_dalek::X25519_BASEPOINT_BYTES)).collect(),
     };
     let bytes = refimpl::encode_layers(&inner, &o, Params::current());
+    (bytes, model, secrets, inner.len())
+}
+
+fn backward(c: &BackCase, st: &mut Stats) -> Result<(), String> {
+    st.eval(1);
+    st.label(format!("back:layers={}", prog::layers_name(c.layers)));
+    let (bytes, model, secrets, inner_len) = build_back(c);
     let key = x25519_dalek::StaticSecret::from(secrets[c.reader as usize % secrets.len()]);
     let decoy = x25519_dalek::StaticSecret::from(util::seed32(c.seed as u64, "back-decoy", 0));
     let got = match util::catch(|| prog::read_all(&bytes, &[decoy, key])) {
@@ -192,16 +200,108 @@ fn backward(c: &BackCase, st: &mut Stats) -> Result<(), String> {
     if let Some(d) = prog::diff_model(&got, &model) {
         return Err(format!("archive encoded per FORMAT.md is read differently: {d}"));
     }
-    let enc_len = if c.layers & 2 != 0 { 0 } else { inner.len() };
     let nchunks = if c.layers & 1 != 0 { (bytes.len() - 57 - 48 * c.nrecip as usize).div_ceil(CHUNK_TAG) } else { 0 };
-    let nblocks = if c.layers & 2 != 0 { inner.len().div_ceil(BLOCK) } else { 0 };
-    let _ = enc_len;
+    let nblocks = if c.layers & 2 != 0 { inner_len.div_ceil(BLOCK) } else { 0 };
     st.label(format!("back:chunks={}", nchunks.min(5)));
     st.label(format!("back:blocks={}", nblocks.min(4)));
     if nchunks >= 2 || nblocks >= 2 || (c.layers & 1 != 0 && c.nrecip >= 2) {
         st.nontrivial(util::hash64(format!("back|{c:?}").as_bytes()));
     }
     st.sample(|| json!({"family": "refimpl->reader", "flavour": FLAVOUR, "layers": prog::layers_name(c.layers), "brotli_quality": c.quality, "lgwin": c.lgwin, "recipients": c.nrecip, "reader": c.reader, "file_block_lengths": c.files, "archive_len": bytes.len()}));
+    Ok(())
+}
+
+// ------------------------------------------------------------ many chunks (chunk index >= 256, >= 65536)
+
+#[derive(Clone, Debug, Serialize, Deserialize)]
+pub struct ManyCase {
+    /// the encrypted stream holds this many full chunks plus `extra` bytes
+    pub chunks: u32,
+    pub extra: u16,
+    pub compress: bool,
+    /// false: library writes, refimpl decodes; true: refimpl encodes, library reads
+    pub backward: bool,
+    pub seed: u16,
+}
+
+fn many_case() -> impl Strategy<Value = ManyCase> {
+    // the chunk counter occupies 4 bytes of the nonce: archives must cross 2^8 and (where affordable) 2^16 chunks
+    let chunks = if SCALED { prop_oneof![3 => 255u32..260, 2 => 260u32..1200, 2 => 65_534u32..65_540] .boxed() } else { (256u32..259).boxed() };
+    (chunks, any::<u16>(), prop::bool::weighted(0.3), any::<bool>(), any::<u16>()).prop_map(|(chunks, extra, compress, backward, seed)| ManyCase { chunks, extra, compress, backward, seed })
+}
+
+fn many(c: &ManyCase, st: &mut Stats) -> Result<(), String> {
+    st.eval(1);
+    let pr = Params::current();
+    let size = c.chunks as usize * CHUNK + (c.extra as usize % CHUNK);
+    // incompressible content: the stream below the encryption layer is about as long as the file
+    let big = data::gen(DataClass::Random, util::mix(c.seed as u64, "many", 0), size);
+    let small = data::gen(DataClass::Text, util::mix(c.seed as u64, "many", 1), 300);
+    let mut model: BTreeMap<String, Vec<u8>> = BTreeMap::new();
+    model.insert("big".into(), big.clone());
+    model.insert("small".into(), small.clone());
+    let layers = if c.compress { 3u8 } else { 1 };
+    let secret = util::seed32(c.seed as u64, "many-recipient", 0);
+    let public = x25519_dalek::PublicKey::from(x25519_dalek::x25519(secret, x25519_dalek::X25519_BASEPOINT_BYTES));
+    let nchunks;
+    if !c.backward {
+        let cfg = prog::writer_config_via((c.seed % 8) as u8, layers, 0, &[public]);
+        let mut w = mla::ArchiveWriter::from_config(Vec::new(), cfg).map_err(|e| format!("from_config: {e:?}"))?;
+        let a = w.start_file("big").map_err(|e| format!("{e:?}"))?;
+        let b = w.start_file("small").map_err(|e| format!("{e:?}"))?;
+        let half = size / 2;
+        w.append_file_content(a, half as u64, &big[..half]).map_err(|e| format!("{e:?}"))?;
+        w.append_file_content(b, small.len() as u64, &small[..]).map_err(|e| format!("{e:?}"))?;
+        w.append_file_content(a, (size - half) as u64, &big[half..]).map_err(|e| format!("{e:?}"))?;
+        w.end_file(a).map_err(|e| format!("{e:?}"))?;
+        w.end_file(b).map_err(|e| format!("{e:?}"))?;
+        w.finalize().map_err(|e| format!("finalize: {e:?}"))?;
+        let bytes = w.into_raw();
+        let d = refimpl::decode_archive(&bytes, &[secret], pr).map_err(|e| format!("independent decoder rejects an archive of {} chunks the writer produced: {e}", c.chunks))?;
+        let got: BTreeMap<String, Vec<u8>> = d.files.iter().map(|(k, v)| (k.clone(), v.data.clone())).collect();
+        if got != model {
+            return Err(format!("independent decoder yields different files for an archive of {} chunks", c.chunks));
+        }
+        nchunks = (bytes.len() - d.header.len).div_ceil(CHUNK_TAG);
+    } else {
+        let names = vec!["big".to_string(), "small".to_string()];
+        let half = size / 2;
+        let script = vec![
+            EncOp::Start(0),
+            EncOp::Start(1),
+            EncOp::Content(0, big[..half].to_vec()),
+            EncOp::Content(1, small.clone()),
+            EncOp::Content(0, big[half..].to_vec()),
+            EncOp::End(0),
+            EncOp::End(1),
+        ];
+        let inner = refimpl::encode_blocks(&names, &script);
+        let o = EncodeOpts {
+            layers,
+            quality: 0,
+            lgwin: 22,
+            key: util::seed32(c.seed as u64, "many-key", 0),
+            nonce: util::seed32(c.seed as u64, "many-nonce", 0)[..8].try_into().unwrap(),
+            eph_secret: util::seed32(c.seed as u64, "many-eph", 0),
+            recipients: vec![*public.as_bytes()],
+        };
+        let bytes = refimpl::encode_layers(&inner, &o, pr);
+        let key = x25519_dalek::StaticSecret::from(secret);
+        let got = match util::catch(|| prog::read_all(&bytes, &[key])) {
+            Ok(Ok(g)) => g,
+            Ok(Err(e)) => return Err(format!("the library cannot read an archive of {} chunks encoded per FORMAT.md: {e}", c.chunks)),
+            Err(p) => return Err(format!("the library panics on an archive of {} chunks encoded per FORMAT.md: {}", c.chunks, p.short())),
+        };
+        if let Some(d) = prog::diff_model(&got, &model) {
+            return Err(format!("archive of {} chunks encoded per FORMAT.md is read differently: {d}", c.chunks));
+        }
+        nchunks = (bytes.len() - 57 - 48).div_ceil(CHUNK_TAG);
+    }
+    st.label(format!("many:{}:chunks>={}", if c.backward { "refimpl->reader" } else { "writer->refimpl" }, if nchunks > 65_536 { 65_537 } else if nchunks > 256 { 257 } else { 0 }));
+    if nchunks > 256 {
+        st.nontrivial(util::hash64(format!("many|{c:?}").as_bytes()));
+    }
+    st.sample(|| json!({"family": "many-chunks", "flavour": FLAVOUR, "direction": if c.backward { "refimpl->reader" } else { "writer->refimpl" }, "chunks": nchunks, "compress": c.compress}));
     Ok(())
 }
 
@@ -297,10 +397,12 @@ fn run(ctx: &Ctx) -> Report {
     if SCALED {
         explore(&mut rep, ctx, "writer->refimpl", ctx.n(8_000, 300_000), || prog::program(pp), forward);
         explore(&mut rep, ctx, "refimpl->reader", ctx.n(8_000, 300_000), back_case, backward);
+        explore(&mut rep, ctx, "many-chunks", ctx.n(160, 2_000), many_case, many);
     } else {
         explore(&mut rep, ctx, "writer->refimpl", ctx.n(120, 2_500), || prog::program(pp), forward);
         explore(&mut rep, ctx, "refimpl->reader", ctx.n(120, 2_500), back_case, backward);
         explore(&mut rep, ctx, "cipher", ctx.n(30_000, 1_000_000), cipher_case, cipher);
+        explore(&mut rep, ctx, "many-chunks", ctx.n(16, 96), many_case, many);
     }
     rep
 }
@@ -314,6 +416,7 @@ fn replay(_ctx: &Ctx, stage: &str, case: &Value) -> Result<(), String> {
     match stage {
         "refimpl->reader" => backward(&serde_json::from_value(case.clone()).map_err(bad)?, &mut Stats::default()),
         "cipher" => cipher(&serde_json::from_value(case.clone()).map_err(bad)?, &mut Stats::default()),
+        "many-chunks" => many(&serde_json::from_value(case.clone()).map_err(bad)?, &mut Stats::default()),
         _ => forward(&serde_json::from_value(case.clone()).map_err(bad)?, &mut Stats::default()),
     }
 }
